@@ -25,6 +25,7 @@ import Fir.Proofs.BoundsLemmas
 import Fir.Proofs.IdealFilterLemmas
 import Fir.Proofs.GeomLemmas
 import Fir.Proofs.ReadsLemmas
+import Fir.Proofs.IeeeLemmas
 
 namespace Fir.C03
 open Fir Fir.Bounds Fir.Gen
@@ -85,17 +86,20 @@ theorem precision_in_arms (p : Nat) (h1 : 1 ≤ p) (h2 : p < PRECISION_BITS) :
 /-! ### the clamped window under an arbitrary monotone, integer-exact rounding `fl` -/
 
 /-- `x_min ≤ x_max` - the hypothesis `window_in_source` starts from - whenever the radius is non-negative
-    and the (computed) window starts inside the image; `bound_end - bound_start` then cannot underflow -/
-theorem xmin_le_xmax (fl : ℚ → ℚ) (hfl : Monotone fl) (hint : ∀ n : ℤ, fl n = n) (c r : ℚ) (inSize : ℕ)
-    (hr : 0 ≤ r) (hin : c - r ≤ inSize) :
+    and the (computed) window starts inside the image; `bound_end - bound_start` then cannot underflow.
+    `fl` only has to be monotone and exact on the integer `in_size` -/
+theorem xmin_le_xmax (fl : ℚ → ℚ) (hfl : Monotone fl) (c r : ℚ) (inSize : ℕ)
+    (hsz : fl ((inSize : ℤ) : ℚ) = ((inSize : ℤ) : ℚ)) (hr : 0 ≤ r) (hin : c - r ≤ inSize) :
     Fir.Proofs.xMinOf fl c r ≤ Fir.Proofs.xMaxOf fl c r inSize ∧ Fir.Proofs.xMaxOf fl c r inSize ≤ inSize :=
-  ⟨Fir.Proofs.xmin_le_xmax fl hfl hint c r inSize hr hin, min_le_right _ _⟩
+  ⟨Fir.Proofs.xmin_le_xmax fl hfl c r inSize hsz hr hin, min_le_right _ _⟩
 
 /-- every window fits into the `window_size = min(2⌈r⌉ + 1, in_size)` slots reserved for it (the clamp to
-    `in_size` is the repair for huge supports): `coeffs.resize(cur_index + window_size)` never truncates -/
-theorem span_le_window (fl : ℚ → ℚ) (hfl : Monotone fl) (hint : ∀ n : ℤ, fl n = n) (c r : ℚ) (inSize : ℕ) (hr : 0 ≤ r) :
+    `in_size` is the repair for huge supports): `coeffs.resize(cur_index + window_size)` never truncates.
+    `fl` only has to be monotone and exact on the two integers `⌈c⌉ + ⌈r⌉`, `⌊c⌋ - ⌈r⌉` -/
+theorem span_le_window (fl : ℚ → ℚ) (hfl : Monotone fl) (c r : ℚ) (inSize : ℕ) (hr : 0 ≤ r)
+    (h1 : fl ((⌈c⌉ + ⌈r⌉ : ℤ) : ℚ) = ((⌈c⌉ + ⌈r⌉ : ℤ) : ℚ)) (h2 : fl ((⌊c⌋ - ⌈r⌉ : ℤ) : ℚ) = ((⌊c⌋ - ⌈r⌉ : ℤ) : ℚ)) :
     Fir.Proofs.xMaxOf fl c r inSize - Fir.Proofs.xMinOf fl c r ≤ Fir.Proofs.windowSizeOf r inSize :=
-  Fir.Proofs.span_le_window fl hfl hint c r inSize hr
+  Fir.Proofs.span_le_window fl hfl c r inSize hr h1 h2
 
 /-- the reserved slots never exceed the image size, whatever the support (no overflow, no giant allocation) -/
 theorem window_size_le_in_size (r : ℚ) (inSize : ℕ) : Fir.Proofs.windowSizeOf r inSize ≤ inSize := min_le_right _ _
@@ -143,5 +147,39 @@ theorem doConvolution_temp_reads_in_bounds (c : Fir.Coeffs) (inSize : Nat) (hin 
       ∀ j, j < b.2 → (b.1 - Fir.boundsFirst c) + j < Fir.boundsLast c - Fir.boundsFirst c) :=
   Fir.Proofs.doConvolution_temp_reads_in_bounds c inSize hin
 
+
+/-! ### the premises about rounding discharged for IEEE-754 round-to-nearest-even (`Fir.Ieee.flP`) -/
+
+section IeeeInstances
+open Fir.Ieee Fir.Flt
+/-- `xmin_le_xmax` / `span_le_window` for IEEE binary64: coordinates below 2^52 (image sizes are below 2^32) -/
+theorem window_ieee (c r : ℚ) (inSize : ℕ) (hr : 0 ≤ r) (hin : c - r ≤ inSize) (hsz : (inSize : ℤ) ≤ 2 ^ 53)
+    (hb : |c| + r + 2 ≤ 2 ^ 53) :
+    Fir.Proofs.xMinOf (flP 53) c r ≤ Fir.Proofs.xMaxOf (flP 53) c r inSize ∧
+    Fir.Proofs.xMaxOf (flP 53) c r inSize - Fir.Proofs.xMinOf (flP 53) c r ≤ Fir.Proofs.windowSizeOf r inSize := by
+  have hmono := flP_monotone 53 (by norm_num)
+  have hc1 := Int.le_ceil c
+  have hc2 := Int.ceil_lt_add_one c
+  have hf1 := Int.floor_le c
+  have hf2 := Int.lt_floor_add_one c
+  have hr1 := Int.le_ceil r
+  have hr2 := Int.ceil_lt_add_one r
+  have habs := abs_le.mp (le_refl |c|)
+  have e1 : flP 53 ((⌈c⌉ + ⌈r⌉ : ℤ) : ℚ) = ((⌈c⌉ + ⌈r⌉ : ℤ) : ℚ) := by
+    apply flP_int 53 (by norm_num)
+    have : |((⌈c⌉ + ⌈r⌉ : ℤ) : ℚ)| ≤ ((2 ^ 53 : ℤ) : ℚ) := by
+      rw [abs_le]; push_cast; constructor <;> linarith
+    exact_mod_cast this
+  have e2 : flP 53 ((⌊c⌋ - ⌈r⌉ : ℤ) : ℚ) = ((⌊c⌋ - ⌈r⌉ : ℤ) : ℚ) := by
+    apply flP_int 53 (by norm_num)
+    have : |((⌊c⌋ - ⌈r⌉ : ℤ) : ℚ)| ≤ ((2 ^ 53 : ℤ) : ℚ) := by
+      rw [abs_le]; push_cast; constructor <;> linarith
+    exact_mod_cast this
+  have e3 : flP 53 ((inSize : ℤ) : ℚ) = ((inSize : ℤ) : ℚ) := by
+    apply flP_int 53 (by norm_num)
+    rw [abs_of_nonneg (by positivity)]; exact hsz
+  exact ⟨Fir.Proofs.xmin_le_xmax (flP 53) hmono c r inSize e3 hr hin,
+         Fir.Proofs.span_le_window (flP 53) hmono c r inSize hr e1 e2⟩
+end IeeeInstances
 
 end Fir.C03
